@@ -140,6 +140,13 @@ class Ctx:
         if os.geteuid() != 0 or not chroot:
             self.notes.append("bare-environment pass skipped: not permitted to chroot")
             return None
+        inner = []
+        for a in args:       # input files of the driver are copied into the new root
+            if os.path.isabs(a) and os.path.isfile(a):
+                shutil.copy(a, os.path.join(root, os.path.basename(a)))
+                a = "/" + os.path.basename(a)
+            inner.append(a)
+        args = inner
         try:
             r = subprocess.run([chroot, root, "/drive"] + list(args) + ["/trace.ndjson"], cwd=root, capture_output=True, text=True, timeout=timeout,
                                env={"VERIF_SEED": str(self.seed), "VERIF_TIER": self.tier})
